@@ -759,6 +759,114 @@ func checkLibmemAdmission(e *Engine, r *Report, c *lmCtx) {
 		}})
 		r.Check("R3:release-unassigned-fails", rule, "releasing a request the registry has no zone for is an error", e.Pos(fn.Pos()), fn, p == nil, e.pathString(p), true)
 	}
+	// validateRequest: an id that is already registered, and an affinity naming unknown nodes, are refused
+	if fn := e.Fn(pkgLM, "Allocator.validateRequest"); fn != nil && len(fn.Params) == 2 {
+		dup := func(cond ssa.Value) (bool, bool) {
+			if ex, ok := unspill(cond).(*ssa.Extract); ok && ex.Index == 1 {
+				if lk, ok := ex.Tuple.(*ssa.Lookup); ok && lk.CommaOk && isFieldLoad(lk.X, c.fRequests) {
+					return true, true
+				}
+			}
+			return false, false
+		}
+		okRet := func(in ssa.Instruction) bool {
+			ret, ok := in.(*ssa.Return)
+			return ok && e.maySucceed(ret)
+		}
+		p := FindPath(PathQuery{Fn: fn, Assume: dup, Target: okRet})
+		r.Check("R3:admission-refuses-registered-id", rule, "a request whose id is already registered is refused (no second booking under one id)", e.Pos(fn.Pos()), fn, p == nil, e.pathString(p), true)
+		// unknown nodes: (affinity & all) != affinity
+		fAff := e.Field(pkgLM, "Request", "affinity")
+		me := newMaskEval(e, fn)
+		unknown := func(cond ssa.Value) (bool, bool) {
+			b, ok := cond.(*ssa.BinOp)
+			if !ok || (b.Op != token.EQL && b.Op != token.NEQ) {
+				return false, false
+			}
+			if bt, ok := b.X.Type().Underlying().(*types.Basic); !ok || bt.Info()&types.IsInteger == 0 {
+				return false, false
+			}
+			// one side is the affinity, the other the affinity masked with the known nodes
+			for _, pr := range [][2]ssa.Value{{b.X, b.Y}, {b.Y, b.X}} {
+				if !isFieldLoad(pr[0], fAff) {
+					continue
+				}
+				and, ok := pr[1].(*ssa.BinOp)
+				if !ok || and.Op != token.AND || !(isFieldLoad(and.X, fAff) || isFieldLoad(and.Y, fAff)) {
+					continue
+				}
+				return true, b.Op == token.NEQ // they differ: some node is unknown
+			}
+			_ = me
+			return false, false
+		}
+		dec := false
+		AllInstrs(fn, func(in ssa.Instruction) {
+			if ifi, ok := in.(*ssa.If); ok {
+				if k, _ := unknown(ifi.Cond); k {
+					dec = true
+				}
+			}
+		})
+		p = FindPath(PathQuery{Fn: fn, Assume: unknown, Target: okRet})
+		r.Check("R3:admission-refuses-unknown-nodes", rule, "a request whose affinity names nodes the allocator does not know is refused", e.Pos(fn.Pos()), fn, p == nil && dec, e.pathString(p), true)
+	}
+	// AssignedZone reports the registry's own answer
+	if fn := e.Fn(pkgLM, "Allocator.AssignedZone"); fn != nil {
+		var lk *ssa.Lookup
+		AllInstrs(fn, func(in ssa.Instruction) {
+			if l, ok := in.(*ssa.Lookup); ok && l.CommaOk && isFieldLoad(l.X, c.fUsers) && paramIndex(l.Index) == 1 {
+				lk = l
+			}
+		})
+		okAZ := lk != nil
+		if okAZ {
+			for _, val := range []bool{true, false} {
+				val := val
+				asm := func(cond ssa.Value) (bool, bool) {
+					if ex, ok := unspill(cond).(*ssa.Extract); ok && ex.Tuple == ssa.Value(lk) && ex.Index == 1 {
+						return true, val
+					}
+					return false, false
+				}
+				for _, ret := range Returns(fn) {
+					if !reachableBlock(fn, ret.Block(), asm) {
+						continue
+					}
+					// the bool result equals the lookup's ok; on a hit the zone is the looked-up one
+					OriginsUnder(fn, ret.Results[1], asm, func(v ssa.Value) bool {
+						switch x := v.(type) {
+						case *ssa.Phi:
+							return false
+						case *ssa.Const:
+							if x.Value != nil && (x.Value.ExactString() == "true") != val {
+								okAZ = false
+							}
+						case *ssa.Extract:
+							if !(x.Tuple == ssa.Value(lk) && x.Index == 1) {
+								okAZ = false
+							}
+						default:
+							okAZ = false
+						}
+						return true
+					})
+					if val {
+						OriginsUnder(fn, ret.Results[0], asm, func(v ssa.Value) bool {
+							if _, isPhi := v.(*ssa.Phi); isPhi {
+								return false
+							}
+							if ex, ok := v.(*ssa.Extract); !ok || ex.Tuple != ssa.Value(lk) || ex.Index != 0 {
+								okAZ = false
+							}
+							return true
+						})
+					}
+				}
+			}
+		}
+		r.Check("R3:assigned-zone-is-registry-lookup", rule, "AssignedZone(id) answers with the registry's entry for id: found exactly when the registry has one, and then with its zone", e.Pos(fn.Pos()), fn, okAZ, "", true)
+	}
 	// reset: every index is replaced by an empty one and the offers are invalidated
 	if fn := c.reset; fn != nil {
 		for _, f := range []*types.Var{c.fZones, c.fUsers, c.fRequests} {
